@@ -52,6 +52,10 @@ def run_one(p, flags_list, tmp):
                     bad.append(('glob.translate', fl, f'regex does not compile: {rx!r}: {e}'))
             attempt('fnmatch.filter', fl, lambda: F.filter(nm, variant, flags=fl & F.FLAG_MASK))
             attempt('glob.globfilter', fl, lambda: G.globfilter(nm, variant, flags=fl & G.FLAG_MASK))
+            attempt('fnmatch.is_magic', fl, lambda: F.is_magic(variant, flags=fl & F.FLAG_MASK))
+            attempt('glob.is_magic', fl, lambda: G.is_magic(variant, flags=fl & G.FLAG_MASK))
+            attempt('glob.escape', fl, lambda: (G.escape(variant), G.escape(variant, unix=False), G.escape(variant, unix=True), F.escape(variant)))
+            attempt('glob.compile', fl, lambda: G.compile(variant, flags=fl & G.FLAG_MASK).match(nm[0]))
             attempt('WcSplit.split', fl, lambda: list(W.WcSplit(variant, fl).split()))
             attempt('_GlobSplit.split', fl, lambda: G._GlobSplit(variant, G._flag_transform(fl & G.FLAG_MASK)).split())
         attempt('glob.glob', fl, lambda: G.glob(p, flags=fl & G.FLAG_MASK, root_dir=tmp))
@@ -150,6 +154,11 @@ def run(chk, tier, seed):
     wf = [W.FORCEWIN | W.CASE | W.EXTMATCH, W.FORCEWIN | W.EXTMATCH | W.GLOBSTAR]
     jobs += [(unc[i:i + 400], wf) for i in range(0, len(unc), 400)]
     # user-directory expansion (GLOBTILDE): unknown and impossible user names are not errors
+    # pattern sets that consist of exclusions only, with and without NODIR / NEGATEALL (no inclusion pattern to read anything from)
+    excl = ['!a', '!*/z|!q', '-a', '!a|!b', '!', '!!a', '!(a)', '!*', '!**/', '-*/', '!a/']
+    ef = [W.NEGATE | W.NODIR | W.FORCEUNIX, W.NEGATE | W.NODIR | W.SPLIT | W.EXTMATCH | W.FORCEUNIX, W.NEGATE | W.MINUSNEGATE | W.NODIR | W.FORCEWIN, W.NEGATE | W.NEGATEALL | W.NODIR | W.SPLIT | W.FORCEUNIX,
+          W.NEGATE | W.NODIR | W.REALPATH | W.FORCEUNIX]
+    jobs += [(excl, ef)]
     tilde = ['~', '~/x*', '~nosuchuser/x', '~\x00', '~\x00/x', '~root/\x00', '~a b', '~[', '~(', '~|~', '!~\x00', '~\\', '~/\x00']
     jobs += [(tilde, [W.GLOBTILDE | W.FORCEUNIX, W.GLOBTILDE | W.FORCEUNIX | W.REALPATH | W.NEGATE | W.SPLIT, W.GLOBTILDE | W.EXTMATCH])]
     total = 0
